@@ -9,6 +9,7 @@ def run(ctx):
     M.flw2_compaction_covers_names(ctx)
     O.opt1_shared_optional_payload(ctx)
     M.lit2_catalogue_literals(ctx)
+    M.nul1_null_map_never_ignored(ctx)
     return ctx.finish(
         'Static rules on the compaction path, which re-encodes every column through a second decode '
         'routine the query path never uses: that routine handles every codec op and every '
